@@ -27,6 +27,7 @@ func main() {
 		verbose := fs.Bool("v", false, "verbose")
 		only := fs.String("only", "", "regexp on obligation names")
 		keep := fs.Bool("keep-smt", false, "keep SMT files under .smt/")
+		noEv := fs.Bool("no-evidence", false, "do not write evidence (self-test runs)")
 		fs.Parse(os.Args[2:])
 		if t := os.Getenv("VERIF_TIER"); t != "" && *tier == "" {
 			*tier = t
@@ -40,7 +41,7 @@ func main() {
 			vd, _ = os.Getwd()
 		}
 		vd, _ = filepath.Abs(vd)
-		opt := &gocv.Options{RepoDir: *repo, VerifDir: vd, Property: *prop, Tier: *tier, Seed: seed, Jobs: runtime.NumCPU(), Verbose: *verbose, Only: *only, KeepSMT: *keep}
+		opt := &gocv.Options{RepoDir: *repo, VerifDir: vd, Property: *prop, Tier: *tier, Seed: seed, Jobs: runtime.NumCPU(), Verbose: *verbose, Only: *only, KeepSMT: *keep, NoEvidence: *noEv}
 		rep, err := gocv.RunCheck(opt)
 		if err != nil {
 			fmt.Println("error:", err)
